@@ -81,7 +81,7 @@ class CallMixin:
             lam, fid = fv.data
             yield from self.call_lambda(st, lam, fid, args)
         elif tag == 'listmeth':
-            yield from B.call_listmeth(self, st, fv.data[0], fv.data[1], args, node)
+            yield from B.call_listmeth(self, st, fv.data[0], fv.data[1], args, node, kwargs)
         elif tag == 'exc':
             yield st, VExc(fv.data[0])
         elif tag == 'uf':
